@@ -37,6 +37,14 @@ type Fixture struct {
 	Flat func(n int) string
 }
 
+// NamedReader is a reader with a Name method (like *os.File): Parse falls back to it when no filename is given.
+type NamedReader struct{ io.Reader }
+
+// ReaderName is what NamedReader.Name returns.
+const ReaderName = "reader-name.x"
+
+func (NamedReader) Name() string { return ReaderName }
+
 var registry = map[string]*Fixture{}
 
 // Register adds a fixture built from a typed parser.
@@ -52,6 +60,8 @@ func Register[G any](name string, p *participle.Parser[G], elided []string, samp
 			ast, err = p.ParseBytes(filename, input, opts...)
 		case "reader":
 			ast, err = p.Parse(filename, bytes.NewReader(input), opts...)
+		case "namedreader":
+			ast, err = p.Parse(filename, NamedReader{bytes.NewReader(input)}, opts...)
 		case "onebyte":
 			ast, err = p.Parse(filename, iotest.OneByteReader(bytes.NewReader(input)), opts...)
 		case "slowreader":
